@@ -169,6 +169,16 @@ func (self *Interpreter) forStatement(node ast.AnalyzedForStatement) *value.Inte
 		iterVal = value.NewValueList(snapshot)
 	}
 
+	// Ranges and strings keep their iteration position inside the value (shared by all copies of it):
+	// every loop iterates over a copy with a position of its own (like on the VM, which clones the iterable),
+	// otherwise a second loop over the same variable would continue where an earlier one was left.
+	switch iterable := (*iterVal).(type) {
+	case value.ValueRange:
+		iterVal = value.NewValueRange(*iterable.Start, *iterable.End, iterable.EndIsInclusive)
+	case value.ValueString:
+		iterVal = value.NewValueString(iterable.Inner)
+	}
+
 	iterator := (*iterVal).IntoIter()
 
 	// add a new scope for the loop
